@@ -171,10 +171,10 @@ MBlock == {"address", "article", "aside", "blockquote", "br", "caption", "col", 
            "head", "header", "hgroup", "hr", "html", "legend", "li", "main", "menu", "nav", "ol",
            "option", "p", "pre", "section", "style", "summary", "table", "tbody", "td", "tfoot", "th", "thead",
            "title", "tr", "ul"}
-MObject == {"button", "canvas", "iframe", "img", "input", "meter", "object", "progress", "q", "rt", "select", "svg",
+MObject == {"audio", "embed", "button", "canvas", "iframe", "img", "input", "meter", "object", "progress", "q", "rt", "select", "svg",
             "textarea", "video", "wbr", "rtc"}
 MNormalOnly == {"abbr", "area", "b", "base", "bdi", "bdo", "body", "cite", "code", "data", "datalist", "dfn", "dialog",
-                "em", "embed", "i", "kbd", "link", "mark", "meta", "optgroup", "output", "param", "picture", "rp",
+                "em", "i", "kbd", "link", "mark", "meta", "optgroup", "output", "param", "picture", "rp",
                 "ruby", "s", "samp", "slot", "small", "source", "span", "strong", "sub", "sup", "template", "time",
                 "track", "u", "var", "rb"}
 MRaw == {"iframe", "math", "script", "style", "svg", "textarea"}
